@@ -28,28 +28,77 @@ def make_fields(fields, module):
     return out
 
 
-def partition(req):
-    _, is_class, already, ns_empty, *fields = req
-    fields = [(str(n), i == '1', p == '1') for n, i, p in fields]
+def parse_req(req):
+    """(dcpart isClass already nsEmpty (opts via slots frozen kwonly order) (name init pytree kwonly dflt inherited)*)"""
+    _, is_class, already, ns_empty, opts, *fields = req
+    _, via, slots, frozen, kwonly, order = opts
+    fields = [(str(n), i == '1', p == '1', k == '1', int(d), inh == '1') for n, i, p, k, d, inh in fields]
+    o = {'via': int(via), 'slots': slots == '1', 'frozen': frozen == '1', 'kw_only': kwonly == '1', 'order': order == '1'}
+    return is_class == '1', already == '1', ns_empty == '1', o, fields
+
+
+def field_kwargs(init, pytree, kwonly, dflt, j):
+    kw = {'init': init, 'pytree_node': pytree}
+    if kwonly:
+        kw['kw_only'] = True
+    if dflt == 1:
+        kw['default'] = 1000 + j
+    elif dflt == 2:
+        kw['default_factory'] = (lambda j=j: 2000 + j)
+    return kw
+
+
+def std_field(pytree_node=None, **kw):
+    return std.field(**kw)
+
+
+def build_class(req, module='odc', extra=None):
+    """the class the request describes, through the decorator or through make_dataclass; module='std' builds the class
+    `dataclasses` itself would produce from the same declaration (the reference of 'otherwise the class
+    dataclasses.dataclass would produce')"""
+    is_class, already, ns_empty, o, fields = parse_req(req)
+    ff = odc.field if module == 'odc' else std_field
+    extra = extra or {}
     n = next(_counter)
-    ns = '' if ns_empty == '1' else f'dcns{n}'
-    if is_class == '0':
+    ns = '' if ns_empty else f'dcns{n}'
+    if not is_class:
         odc.dataclass(5, namespace=ns or 'x')
-    seen_default = False
-    spec = []
-    for name, init, pytree in fields:
-        kw = {'init': init, 'pytree_node': pytree}
-        if not init or seen_default:
-            kw['default'] = 0
-            seen_default = seen_default or init
-        spec.append((name, int, kw))
-    # non-init fields carry defaults, so order them last among positional parameters by using kw_only
-    ns_dict = {'__annotations__': {name: int for name, _, _ in spec}}
-    for name, _, kw in spec:
-        ns_dict[name] = odc.field(kw_only=True, **kw) if kw.get('init') else odc.field(**kw)
-    cls = type(f'DC{n}', (), ns_dict)
-    if already == '1':
+    dc_kwargs = {k: o[k] for k in ('slots', 'frozen', 'kw_only', 'order') if o[k]}
+    inherited = [(j, f) for j, f in enumerate(fields) if f[5]]
+    own = [(j, f) for j, f in enumerate(fields) if not f[5]]
+    bases = ()
+    if inherited:
+        base_ns = {'__annotations__': {f[0]: int for _, f in inherited}}
+        for j, (name, init, pytree, kwonly, dflt, _) in inherited:
+            base_ns[name] = ff(**field_kwargs(init, pytree, kwonly, dflt, j))
+        # the base is a plain stdlib dataclass (its fields are inherited by the optree dataclass)
+        bases = (std.dataclass(type(f'Base{n}', (), base_ns), **{k: v for k, v in dc_kwargs.items() if k in ('frozen', 'kw_only')}),)
+    if module == 'std':
+        if o['via'] == 1:
+            spec = [(name, int, ff(**field_kwargs(init, pytree, kwonly, dflt, j))) for j, (name, init, pytree, kwonly, dflt, _) in own]
+            return std.make_dataclass(f'DC{n}', spec, bases=bases, namespace=dict(extra), **dc_kwargs), None
+        ns_dict = {'__annotations__': {f[0]: int for _, f in own}, **extra}
+        for j, (name, init, pytree, kwonly, dflt, _) in own:
+            ns_dict[name] = ff(**field_kwargs(init, pytree, kwonly, dflt, j))
+        return std.dataclass(type(f'DC{n}', bases, ns_dict), **dc_kwargs), None
+    if o['via'] == 1:
+        spec = [(name, int, ff(**field_kwargs(init, pytree, kwonly, dflt, j))) for j, (name, init, pytree, kwonly, dflt, _) in own]
+        if extra:
+            dc_kwargs = dict(dc_kwargs, ns=dict(extra))
+        if already:
+            pre = odc.make_dataclass(f'DC{n}', spec, bases=bases, namespace=f'dcpre{n}', **dc_kwargs)
+            return odc.dataclass(pre, namespace=ns), ns
+        return odc.make_dataclass(f'DC{n}', spec, bases=bases, namespace=ns, **dc_kwargs), ns
+    ns_dict = {'__annotations__': {f[0]: int for _, f in own}, **extra}
+    for j, (name, init, pytree, kwonly, dflt, _) in own:
+        ns_dict[name] = ff(**field_kwargs(init, pytree, kwonly, dflt, j))
+    cls = type(f'DC{n}', bases, ns_dict)
+    if already:
         cls = odc.dataclass(cls, namespace=f'dcpre{n}')
-    cls = odc.dataclass(cls, namespace=ns)
+    return odc.dataclass(cls, namespace=ns, **dc_kwargs), ns
+
+
+def partition(req):
+    cls, ns = build_class(req)
     children, metadata = getattr(cls, '__optree_dataclass_fields__')
     return [[str(k) for k in children], [str(k) for k in metadata]], cls, ns
